@@ -91,7 +91,7 @@ def r_dualcone(c):
     A = make_agg(c["agg"], J.shape[0], dict(norm_eps=eps, reg_eps=reg), c["u"] if c.get("pref") else None)
     out = A(t64(J)).numpy()
     w_ref, ref = dualcone_reference(J, u, eps, reg, c["agg"])
-    return dict(reproduced=not close(out, ref, 1e-5), out=out.tolist(), reference=ref.tolist(), weights_reference=w_ref.tolist())
+    return dict(reproduced=not close(out, ref, 1e-5, scale=np.abs(J).max()), out=out.tolist(), reference=ref.tolist(), weights_reference=w_ref.tolist())
 
 
 @handler("bad_pref")
@@ -125,7 +125,7 @@ def r_row_perm(c):
     o1 = A1(t64(J)).numpy()
     o2 = A2(t64(J[perm])).numpy()
     tol = 1e-4 if c["agg"] in ("cagrad",) else 1e-6
-    return dict(reproduced=not close(o1, o2, tol), out=o1.tolist(), out_permuted=o2.tolist())
+    return dict(reproduced=not close(o1, o2, tol, scale=np.abs(J).max()), out=o1.tolist(), out_permuted=o2.tolist())
 
 
 @handler("row_perm_entry")
@@ -284,7 +284,7 @@ def r_homog(c):
     o1 = A(t64(J)).numpy()
     torch.manual_seed(0)
     o2 = A(t64(J * t)).numpy()
-    bad = not close(o2, t * o1, 1e-5)
+    bad = not close(o2, t * o1, 1e-5, scale=max(np.abs(J).max() * max(t, 1.0), 1e-300))
     key = None
     if bad and c["agg"] == "imtlg" and not np.any(o1 if abs(t) < 1 else o2) :
         key = "imtlg:absolute-threshold-zeroes-well-defined-weights"
